@@ -51,14 +51,17 @@ def duplicateDirectiveErrors (s : Schema) : List Directive → List Name → Lis
       else duplicateDirectiveErrors s rest seen
     | none => duplicateDirectiveErrors s rest seen
 
+/-- the per-callback check of unique_directives_per_location.rs -/
+def udCheck (s : Schema) (e : Ev × Snap) : List Err :=
+  match e.1 with
+  | .enter (.operation o) => duplicateDirectiveErrors s o.dirs []
+  | .enter (.field f) => duplicateDirectiveErrors s f.dirs []
+  | .enter (.fragmentDef f) => duplicateDirectiveErrors s f.dirs []
+  | .enter (.spread sp) => duplicateDirectiveErrors s sp.dirs []
+  | .enter (.inline i) => duplicateDirectiveErrors s i.dirs []
+  | _ => []
+
 def uniqueDirectivesPerLocation : Rule :=
-  Rule.stateless fun s _ e =>
-    match e.1 with
-    | .enter (.operation o) => duplicateDirectiveErrors s o.dirs []
-    | .enter (.field f) => duplicateDirectiveErrors s f.dirs []
-    | .enter (.fragmentDef f) => duplicateDirectiveErrors s f.dirs []
-    | .enter (.spread sp) => duplicateDirectiveErrors s sp.dirs []
-    | .enter (.inline i) => duplicateDirectiveErrors s i.dirs []
-    | _ => []
+  Rule.stateless fun s _ e => udCheck s e
 
 end Gql
